@@ -17,7 +17,8 @@ MCUserDeltas == {M1000, M1, 0, 1, 700, 999, 1000, 1700}
 TimingChanges == {<<>>}
 AllChanges == {<<>>, [name |-> "b"], [description |-> "b"], [description |-> "none"], [aliases |-> "none"], [name |-> "none"],
                [description |-> "a", aliases |-> "b"], [created |-> "x"], [id |-> "x"], [type |-> "x"], [created_by_ref |-> "x"],
-               [description |-> "b", id |-> "x"]}
+               [description |-> "b", id |-> "x"], [created |-> "none"], [id |-> "none"], [type |-> "none"], [created_by_ref |-> "none"],
+               [description |-> "b", created_by_ref |-> "none"]}
 FewDeltas == {M1, 700, 5000}
 FewUser == {0, 1700}
 
